@@ -52,14 +52,20 @@ fn tampered(ctx: &Ctx, rng: &mut Rng, b: &ABundle, model: &MBundle, kind: &str) 
         "message-byte" if n > 0 => {
             let mut p = pairs.clone();
             let k = rng.usize(n);
-            let at = rng.usize(p[k].1.len());
-            p[k].1[at] ^= 1 << rng.below(8);
+            if p[k].1.is_empty() {
+                p[k].1.push(0x42);
+            } else {
+                let at = rng.usize(p[k].1.len());
+                p[k].1[at] ^= 1 << rng.below(8);
+            }
             ctx.sign_pairs(&p)
         }
         "message-truncated" if n > 0 => {
             let mut p = pairs.clone();
             let k = rng.usize(n);
-            p[k].1.pop();
+            if p[k].1.pop().is_none() {
+                return None;
+            }
             ctx.sign_pairs(&p)
         }
         "other-key" if n > 0 => {
